@@ -114,3 +114,35 @@ B("c07-maze-divmod", "C07", "C07.R1", (R + "maze/generator.py", "RandomGenerator
 T("c07-twin-flip", "C07", (R + "maze/env.py", "Maze", "expr", "row < self.num_rows", "self.num_rows > row"))
 T("c07-twin-le", "C07", (R + "cleaner/env.py", "Cleaner", "expr", "x < self.num_cols", "x <= self.num_cols - 1"))
 B("c04-cleaner-mask-axis", "C04", "C04.R2", (R + "cleaner/env.py", "Cleaner", "expr", "y < self.num_rows", "y < self.num_cols"))
+
+# ---------------------------------------------------------------- C16
+SP = "jumanji/specs.py"
+B("c16-reduce-drop", "C16", "C16.R2", (SP, "BoundedArray.__reduce__", "expr", "(self._shape, self._dtype, self._minimum, self._maximum, self._name)", "(self._shape, self._dtype, self._minimum, self._maximum)"))
+B("c16-reduce-order", "C16", "C16.R2", (SP, "BoundedArray.__reduce__", "expr", "(self._shape, self._dtype, self._minimum, self._maximum, self._name)", "(self._shape, self._dtype, self._maximum, self._minimum, self._name)"))
+B("c16-validate-le", "C16", "C16.R4", (SP, "BoundedArray.validate", "expr", "value < self.minimum", "value <= self.minimum"))
+B("c16-validate-swapped-bounds", "C16", "C16.R4", (SP, "BoundedArray.validate", "expr", "value > self.maximum", "value > self.minimum"))
+B("c16-eq-drop-name", "C16", "C16.R3", (SP, "Array.__eq__", "expr", "self.shape == other.shape and self.dtype == other.dtype and (self.name == other.name)", "self.shape == other.shape and self.dtype == other.dtype"))
+B("c16-eq-unreduced", "C16", "C16.R3", (SP, "MultiDiscreteArray.__eq__", "expr", "(self.num_values == other.num_values).all()", "(self.num_values == other.num_values)"))
+B("c16-conv-order", "C16", "C16.R6", (SP, "jumanji_specs_to_gym_spaces", "expr", "isinstance(spec, DiscreteArray)", "isinstance(spec, BoundedArray)", 1),
+  (SP, "jumanji_specs_to_gym_spaces", "expr", "isinstance(spec, BoundedArray)", "isinstance(spec, DiscreteArray)", 2))
+B("c16-conv-low-high", "C16", "C16.R6", (SP, "jumanji_specs_to_gym_spaces", "expr", "np.broadcast_to(spec.minimum, shape=spec.shape)", "np.broadcast_to(spec.maximum, shape=spec.shape)"))
+B("c16-property-wrong", "C16", "C16.R1", (SP, "BoundedArray.maximum", "expr", "self._maximum", "self._minimum"))
+B("c16-validate-dtype-dropped", "C16", "C16.R4", (SP, "Array.validate", "delete", "if value.dtype != self.dtype"))
+B("c16-spec-eq-self", "C16", "C16.R5", (SP, "Spec.__eq__", "expr", "is_equal_pytree(self._specs, other._specs)", "is_equal_pytree(self._specs, self._specs)"))
+B("c16-spec-replace-nocopy", "C16", "C16.R5", (SP, "Spec.replace", "expr", "copy.deepcopy(self._specs)", "self._specs"))
+T("c16-twin-generate-max", "C16", (SP, "BoundedArray.__init__", "expr", "jnp.full(shape, minimum, dtype)", "jnp.full(shape, maximum, dtype)"))
+T("c16-twin-array-equal", "C16", (SP, "MultiDiscreteArray.__eq__", "expr", "(self.num_values == other.num_values).all()", "jnp.array_equal(self.num_values, other.num_values)"))
+
+# ---------------------------------------------------------------- C15
+B("c15-dm-cross", "C15", "C15.R3", (W, "JumanjiToDMEnvWrapper.step", "kwarg", "reward", "timestep.reward", "timestep.discount"))
+B("c15-dm-same-half", "C15", "C15.R1", (W, "JumanjiToDMEnvWrapper.reset", "replace_stmt", "reset_key, self._key = jax.random.split(self._key)", "reset_key, _ = jax.random.split(self._key)\nself._key = reset_key"))
+B("c15-gym-key-not-advanced", "C15", "C15.R1", (W, "JumanjiToGymWrapper.reset", "replace_stmt", "key, self._key = jax.random.split(self._key)", "key, _ = jax.random.split(self._key)"))
+B("c15-gym-term-no-negation", "C15", "C15.R3", (W, "JumanjiToGymWrapper.__init__.step", "expr", "~timestep.discount.astype(bool)", "timestep.discount.astype(bool)"))
+B("c15-gym-trunc-mid", "C15", "C15.R3", (W, "JumanjiToGymWrapper.__init__.step", "expr", "timestep.last()", "timestep.mid()"))
+B("c15-gym-state-not-threaded", "C15", "C15.R2", (W, "JumanjiToGymWrapper.step", "replace_stmt", "self._state, obs, reward, term, trunc, extras = self._step(self._state, action_jax)", "_s, obs, reward, term, trunc, extras = self._step(self._state, action_jax)"))
+B("c15-gym-seed-after-split", "C15", "C15.R1", (W, "JumanjiToGymWrapper.reset", "swap", "if seed is not None", "key, self._key = jax.random.split(self._key)"))
+B("c15-m2s-crossed", "C15", "C15.R3", (W, "MultiToSingleWrapper._aggregate_timestep", "expr", "self._reward_aggregator(timestep.reward)", "self._discount_aggregator(timestep.reward)"))
+B("c15-m2s-defaults", "C15", "C15.R3", (W, "MultiToSingleWrapper.__init__", "replace_stmt", "self._reward_aggregator = reward_aggregator", "self._reward_aggregator = discount_aggregator"))
+B("c15-m2s-reset-skips", "C15", "C15.R3", (W, "MultiToSingleWrapper.reset", "delete", "timestep = self._aggregate_timestep(timestep)"))
+B("c15-conv-nvec", "C15", "C15.R4", ("jumanji/specs.py", "jumanji_specs_to_gym_spaces", "expr", "gym.spaces.MultiDiscrete(nvec=spec.num_values, seed=None)", "gym.spaces.MultiDiscrete(nvec=spec.maximum, seed=None)"))
+T("c15-twin-key-names", "C15", (W, "JumanjiToGymWrapper.reset", "replace_stmt", "key, self._key = jax.random.split(self._key)", "k1, k2 = jax.random.split(self._key)\nself._key = k2\nkey = k1"))
